@@ -1,6 +1,7 @@
 import OxiModel.Reductions
 import OxiModel.Spec.Pixel
 import OxiModel.LosslessProofs
+import OxiModel.DepthProofs
 /-
   C01 — lossless: each reduction maps a pixel to a pixel with exactly the same 16-bit RGBA meaning.
   The theorems below are the per-pixel exactness facts ("the mapping is exact": hi==lo bytes,
@@ -822,6 +823,128 @@ theorem expand_to_8_lossless (i j : Img) (lines : List (UInt8 × Bytes × Option
     intro l _
     exact expand_line_indexed depth hd p l.2.1 l.2.2.2
 
+/-- one gray pixel byte that is the replication of its low bits means the same when only those bits are kept -/
+theorem reduce_gray_meaning (mb : Nat) (hmb : mb ∈ [1, 2, 4]) (t : Option Nat) (ht : ∀ k, t = some k → k < 256)
+    (b : UInt8) (hrep : isRep mb b = true) :
+    colourOf (.gray (t.bind (reducedKey mb))) mb [lowOf mb b] = colourOf (.gray t) 8 [b.toNat] := by
+  have hv : lowOf mb b < 2 ^ mb := Nat.mod_lt _ (Nat.pow_pos (by decide))
+  have hb : replicateBits (lowOf mb b) mb = b.toNat := by simpa [isRep] using hrep
+  have hs := reduce_gray_sample mb hmb (lowOf mb b) hv
+  have hlow : replicateBits (lowOf mb b) mb % 2 ^ mb = lowOf mb b := by rw [hb]; rfl
+  rw [hlow, hb] at hs
+  cases t with
+  | none => simp [colourOf, hs]
+  | some k =>
+    have hk := keyOk_all mb hmb k (ht k rfl) (lowOf mb b) hv
+    simp only [keyOk, decide_eq_true_eq, hb] at hk
+    simp only [colourOf, Option.bind_some, List.getD_cons_zero, hs, Option.map_some]
+    congr 1
+    by_cases h : keyComponent 8 k = b.toNat
+    · simp [h, hk.mpr h]
+    · have : ¬ ((reducedKey mb k).map (keyComponent mb) = some (lowOf mb b)) := fun x => h (hk.mp x)
+      simp [h, this]
+
+/-- the rows the reduction writes -/
+def packedLines (mb : Nat) (lines : List (UInt8 × Bytes × Option Nat × Nat)) : List (UInt8 × Bytes × Option Nat × Nat) :=
+  lines.map fun l => (l.1, (chunks (8 / mb) l.2.1).map (packLow mb), l.2.2.1, l.2.2.2)
+
+theorem lowColours_packed (mb : Nat) (hmb : mb ∈ [1, 2, 4]) (ct' : ColorType) (lines : List (UInt8 × Bytes × Option Nat × Nat))
+    (hpx : ∀ l ∈ lines, l.2.2.2 = l.2.1.length) :
+    lowColours ct' mb (packedLines mb lines) =
+      lines.flatMap fun l => l.2.1.map fun b => colourOf ct' mb [lowOf mb b] := by
+  unfold lowColours packedLines
+  rw [List.flatMap_map]
+  apply flatMap_congr_mem
+  intro l hl
+  simp only
+  rw [hpx l hl, row_unpack mb hmb l.2.1.length l.2.1 (Nat.le_refl _), List.map_map]
+  rfl
+
+theorem reduce_gray_final (w hh : Nat) (il : Bool) (t : Option Nat) (data : Bytes) (mb : Nat) (hmb : mb ∈ [1, 2, 4])
+    (lines : List (UInt8 × Bytes × Option Nat × Nat))
+    (hpart : data = lines.flatMap (·.2.1)) (hpx : ∀ l ∈ lines, l.2.2.2 = l.2.1.length)
+    (ht : ∀ k, t = some k → k < 256) (hrep : ∀ b ∈ data, isRep mb b = true) :
+    lowColours (.gray (t.bind (reducedKey mb))) mb (packedLines mb lines) =
+      pixelColours ⟨⟨w, hh, .gray t, 8, il⟩, data⟩ := by
+  rw [lowColours_packed mb hmb _ lines hpx]
+  have hb : Img.bppBytes ⟨⟨w, hh, .gray t, 8, il⟩, data⟩ = 1 := rfl
+  simp only [pixelColours, storagePixels, hb, chunksExact_one, List.map_map]
+  conv => rhs; rw [hpart, List.map_flatMap]
+  apply flatMap_congr_mem
+  intro l hlm
+  apply List.map_congr_left
+  intro b hbm
+  have hbd : b ∈ data := by rw [hpart]; exact List.mem_flatMap.mpr ⟨l, hlm, hbm⟩
+  exact reduce_gray_meaning mb hmb t ht b (hrep b hbd)
+
+/-- **Reducing 8-bit grayscale to 1/2/4 bits is lossless for the whole image**: the packed rows,
+    read back as the specification packs samples, show the original pixels (key included). The two
+    hypotheses on `lines` are what C18 proves of the scan-line iterator (the lines partition the data; a
+    one-channel 8-bit line has as many bytes as pixels). -/
+theorem reduce_depth_gray_lossless (w hh : Nat) (il : Bool) (t : Option Nat) (data : Bytes) (j : Img)
+    (lines : List (UInt8 × Bytes × Option Nat × Nat))
+    (hl : (⟨⟨w, hh, .gray t, 8, il⟩, data⟩ : Img).scanLines false = some lines)
+    (hpart : data = lines.flatMap (·.2.1)) (hpx : ∀ l ∈ lines, l.2.2.2 = l.2.1.length)
+    (ht : ∀ k, t = some k → k < 256)
+    (h : reducedBitDepth8OrLess ⟨⟨w, hh, .gray t, 8, il⟩, data⟩ = some j) :
+    ∃ mb, mb ∈ [1, 2, 4] ∧ j.ihdr = ⟨w, hh, .gray (t.bind (reducedKey mb)), mb, il⟩ ∧
+      j.data = (packedLines mb lines).flatMap (·.2.1) ∧
+      lowColours j.ihdr.ct mb (packedLines mb lines) = pixelColours ⟨⟨w, hh, .gray t, 8, il⟩, data⟩ := by
+  unfold reducedBitDepth8OrLess at h
+  simp only [ColorType.channels, ne_eq, not_true_eq_false, or_self, if_false, hl] at h
+  cases hm : grayMinBits data with
+  | none => simp [hm] at h
+  | some mb =>
+    simp only [hm, Option.some.injEq] at h
+    obtain ⟨hmb, _, hrep⟩ := grayMinBits_rep data 1 mb (by decide) hm
+    subst h
+    have fin := reduce_gray_final w hh il t data mb hmb lines hpart hpx ht hrep
+    cases t with
+    | none => exact ⟨mb, hmb, rfl, by simp only [packedLines, List.flatMap_map], fin⟩
+    | some k => exact ⟨mb, hmb, rfl, by simp only [packedLines, List.flatMap_map], fin⟩
+
+/-- **Reducing an 8-bit indexed image to 1/2/4 bits is lossless** (indices inside the palette) -/
+theorem reduce_depth_indexed_lossless (w hh : Nat) (il : Bool) (p : List Rgba) (data : Bytes) (j : Img)
+    (lines : List (UInt8 × Bytes × Option Nat × Nat))
+    (hl : (⟨⟨w, hh, .indexed p, 8, il⟩, data⟩ : Img).scanLines false = some lines)
+    (hpart : data = lines.flatMap (·.2.1)) (hpx : ∀ l ∈ lines, l.2.2.2 = l.2.1.length)
+    (hidx : ∀ b ∈ data, b.toNat < p.length)
+    (h : reducedBitDepth8OrLess ⟨⟨w, hh, .indexed p, 8, il⟩, data⟩ = some j) :
+    ∃ mb, mb ∈ [1, 2, 4] ∧ j.ihdr = ⟨w, hh, .indexed p, mb, il⟩ ∧ p.length ≤ 2 ^ mb ∧
+      j.data = (packedLines mb lines).flatMap (·.2.1) ∧
+      lowColours j.ihdr.ct mb (packedLines mb lines) = pixelColours ⟨⟨w, hh, .indexed p, 8, il⟩, data⟩ := by
+  unfold reducedBitDepth8OrLess at h
+  simp only [ColorType.channels, ne_eq, not_true_eq_false, or_self, if_false, hl] at h
+  have fin : ∀ mb, mb ∈ [1, 2, 4] → p.length ≤ 2 ^ mb →
+      lowColours (.indexed p) mb (packedLines mb lines) = pixelColours ⟨⟨w, hh, .indexed p, 8, il⟩, data⟩ := by
+    intro mb hmb hp
+    rw [lowColours_packed mb hmb _ lines hpx]
+    have hb : Img.bppBytes ⟨⟨w, hh, .indexed p, 8, il⟩, data⟩ = 1 := rfl
+    simp only [pixelColours, storagePixels, hb, chunksExact_one, List.map_map]
+    conv => rhs; rw [hpart, List.map_flatMap]
+    apply flatMap_congr_mem
+    intro l hlm
+    apply List.map_congr_left
+    intro b hbm
+    have hbd : b ∈ data := by rw [hpart]; exact List.mem_flatMap.mpr ⟨l, hlm, hbm⟩
+    have hlt : b.toNat < 2 ^ mb := Nat.lt_of_lt_of_le (hidx b hbd) hp
+    have hlow : lowOf mb b = b.toNat := Nat.mod_eq_of_lt hlt
+    simp only [Function.comp, samplesOf, if_neg (by decide : ¬ ((8 : Nat) = 16)), List.map_cons, List.map_nil,
+      hlow, colourOf]
+  by_cases h2 : p.length ≤ 2
+  · simp only [h2, if_true, Option.some.injEq] at h
+    subst h
+    exact ⟨1, by decide, rfl, by simpa using h2, by simp only [packedLines, List.flatMap_map], fin 1 (by decide) (by simpa using h2)⟩
+  · by_cases h4 : p.length ≤ 4
+    · simp only [h2, h4, if_true, if_false, Option.some.injEq] at h
+      subst h
+      exact ⟨2, by decide, rfl, by simpa using h4, by simp only [packedLines, List.flatMap_map], fin 2 (by decide) (by simpa using h4)⟩
+    · by_cases h16 : p.length ≤ 16
+      · simp only [h2, h4, h16, if_true, if_false, Option.some.injEq] at h
+        subst h
+        exact ⟨4, by decide, rfl, by simpa using h16, by simp only [packedLines, List.flatMap_map], fin 4 (by decide) (by simpa using h16)⟩
+      · simp [h2, h4, h16] at h
+
 /-- Non-vacuity: a concrete 16-bit keyed pixel -/
 example : colourOf (.gray (some 0x3434)) 16 [0x34 * 256 + 0x34] = ⟨0x3434, 0x3434, 0x3434, 0⟩ ∧
           colourOf (trns16to8 (.gray (some 0x3434)) exactKey) 8 [0x34] = ⟨0x3434, 0x3434, 0x3434, 0⟩ := by decide
@@ -845,5 +968,8 @@ example : reducedPalette ⟨⟨3, 1, .indexed [⟨9, 9, 9, 255⟩, ⟨1, 2, 3, 2
 
 example : expandedBitDepthTo8 ⟨⟨3, 1, .gray (some 2), 2, false⟩, [0b10011100]⟩ =
     some ⟨⟨3, 1, .gray (some 0xAA), 8, false⟩, [0xAA, 0x55, 0xFF]⟩ := by decide
+
+example : reducedBitDepth8OrLess ⟨⟨3, 1, .gray (some 0x55), 8, false⟩, [0xAA, 0x55, 0xFF]⟩ =
+    some ⟨⟨3, 1, .gray (some 1), 2, false⟩, [0b10011100]⟩ := by decide
 
 end OxiModel.C01
